@@ -1,9 +1,11 @@
 import Lean.Data.Json
 import NGF.Model.Order
 import NGF.Model.Proto
+import NGF.DriverLib.PipelineIO
 /-
 Driver entry for C14. One JSON object per input line (emitted by harness/cmd/c14), field "site":
   gw | mr | lis | tls | btp | pol | det        (anything else is answered with "skip")
+  pipe (mode `pipeline` only): one in-fragment state in several arrival orders, see NGF/DriverLib/PipelineIO.lean
   `judge` : the PROPERTY evaluated on what the real code produced:  ok | known <sig> <detail> | fail <sig> <detail>
   `model` : the result of the model functions of NGF/Model/Order.lean on the same input, as canonical text
 -/
@@ -522,7 +524,10 @@ def driver (args : List String) : IO UInt32 := do
   match args with
   | ["model"] => NGF.Proto.forEachLine stdin fun l => stdout.putStrLn (modelLine l)
   | ["judge"] => NGF.Proto.forEachLine stdin fun l => stdout.putStrLn (judgeLine l)
-  | _ => IO.eprintln "usage: C14 model|judge"; return 2
+  -- stream `pipe`: one in-fragment state in several arrival orders (judge on the real outputs, tie with Pipeline.gen,
+  -- gen_perm_equiv / gen_perm_meaning executed) — see NGF/DriverLib/PipelineIO.lean
+  | ["pipeline"] => NGF.Proto.forEachLine stdin fun l => do stdout.putStrLn (NGF.PipelineIO.answer l); stdout.flush
+  | _ => IO.eprintln "usage: C14 model|judge|pipeline"; return 2
   return 0
 
 end NGF.Order.Driver
